@@ -5,6 +5,11 @@
 (*  single-fault MUTATION OPERATOR, with cleanup in {TRUE, FALSE}.  Per mutant TLC evaluates the named clauses, checks  *)
 (*  the laws, runs the Prepare state machine to its end (invariants RejectIsPure, OnlyReject, ValidAccepted, ...) and  *)
 (*  prints the mutant with the violated clause; mutants that stay valid are printed as STAYED_VALID and not replayed.  *)
+(*  Further operators: an unknown name at every position of a per-output storage DICTIONARY (incl. tuple keys and keys    *)
+(*  that name no array output); ill-formedness introduced AFTER construction through the public update methods of a     *)
+(*  member function (rename an output onto another output / onto an own parameter, rename a parameter onto an own        *)
+(*  output / into a cycle, contradicting default), followed by map or by a call; and on the call side                    *)
+(*  pipeline(out, **kw) with a dropped keyword (missing argument) or an added keyword (surplus).                         *)
 (*  Trace part (mechanism C): requests built by the harness (fixed examples from the repository's tests, random        *)
 (*  larger mutants) with the recorded outcome of the real code; TLC runs the Prepare machine on the request and        *)
 (*  accepts the record iff it is an end state of the machine.                                                          *)
@@ -12,7 +17,8 @@ EXTENDS Validity, SequencesExt, Json, IOUtils, TLCExt
 CONSTANTS MaxSize, RichM, ShardM, NShardsM,     \* the MC_MapDenote universe (sharded there)
           N, RichP, ShardP, NShardsP            \* the MC_PipelineCall universe (sharded here by description)
 
-VARIABLES mut,      \* universe part: the mutant record [op, req] (req.prev = the valid base case); trace part: 0
+VARIABLES mut,      \* universe part: the mutant record [op, req, how] (req.prev = the valid base case, how = the public-API
+                    \* operation that produces the fault after construction, if any); trace part: 0
           tid, l    \* trace part: trace id, next event; universe part: 0
 allvars == <<pvars, mut, tid, l>>
 
@@ -22,7 +28,8 @@ P == INSTANCE MC_PipelineCall WITH d <- 0, phase <- "idle", out <- "", kw <- <<>
 
 ---------------------------------------------------------------------------
 (* valid base requests *)
-Cfg(storage, cleanup, folder) == [storage |-> storage, parallel |-> FALSE, executor |-> FALSE, cleanup |-> cleanup, folder |-> folder]
+Cfg(storage, cleanup, folder) == [storage |-> storage, sdict |-> <<>>, parallel |-> FALSE, executor |-> FALSE, cleanup |-> cleanup,
+                                  folder |-> folder]
 NameIdx(n) == CASE n = "x" -> 1 [] n = "y" -> 2 [] n = "z" -> 3 [] n = "a" -> 4 [] n = "a2" -> 5 [] n = "b" -> 6 [] OTHER -> 7
 SeqKey(ps) == LET RECURSIVE K(_)
                   K(s) == IF Len(s) = 0 THEN 0 ELSE NameIdx(Head(s)) + 7 * K(Tail(s))
@@ -118,6 +125,82 @@ Apply(op, b) == CASE op = "rename_collision"  -> RenameCollision(b)
 CfgsFor(op) == CASE op = "unknown_storage" -> {Cfg("nonsense", cl, fo) : cl \in BOOLEAN, fo \in BOOLEAN} \ {Cfg("nonsense", FALSE, FALSE)}
                  [] op = "executor_without_parallel" -> {[Cfg("file_array", cl, TRUE) EXCEPT !.executor = TRUE] : cl \in BOOLEAN}
                  [] OTHER -> {Cfg("file_array", cl, TRUE) : cl \in BOOLEAN}
+NoHow == [kind |-> "", f |-> "", old |-> "", new |-> ""]
+MapReq(m, c, b) == [desc |-> m.desc, inputs |-> m.inputs, cfg |-> c, prev |-> b, entry |-> "map", out |-> ""]
+BasicMutants(b) == UNION {{[op |-> op, req |-> MapReq(m, c, b), how |-> NoHow] : m \in Apply(op, b), c \in CfgsFor(op)} : op \in Ops}
+
+(* --- per-output storage dictionary with one unknown name: before / after the default entry, default storage with and   *)
+(* without serialization, keyed by the output name(s) of every function (a tuple key for a tuple output) or by a name     *)
+(* that is no output at all                                                                                              *)
+DEntry(key, name) == [key |-> key, name |-> name]
+StorageDicts(b) ==
+    LET keys == {b.desc.funcs[i].outputs : i \in FIdx(b.desc)} \cup {<<"zzz">>} IN
+    UNION {{<<DEntry(<<>>, "file_array"), DEntry(k, "nonsense")>>, <<DEntry(k, "nonsense"), DEntry(<<>>, "file_array")>>,
+            <<DEntry(<<>>, "dict"), DEntry(k, "nonsense")>>} : k \in keys}
+StorageDictMutants(b) ==
+    {[op |-> "unknown_storage_in_dict", req |-> MapReq(b, [Cfg("file_array", cl, TRUE) EXCEPT !.sdict = sd], b), how |-> NoHow] :
+         sd \in StorageDicts(b), cl \in BOOLEAN}
+
+(* --- ill-formedness introduced after construction, through the update methods of a member function.  `how` tells the    *)
+(* harness which call produces it on the valid base pipeline:  pipeline[first output of f].update_renames({old: new}) /   *)
+(* .update_defaults({old: @changed}).  The request is then a map (cleanup in {TRUE, FALSE}) or, without MapSpecs, a call. *)
+RenameParam(dd, i, p, new) ==
+    LET fn == dd.funcs[i]  R(x) == IF x = p THEN new ELSE x IN
+    SetFunc(dd, i, [fn EXCEPT !.params   = [k \in DOMAIN fn.params |-> R(fn.params[k])],
+                              !.defaults = [k \in DOMAIN fn.defaults |-> <<R(fn.defaults[k][1]), fn.defaults[k][2]>>],
+                              !.bound    = [k \in DOMAIN fn.bound |-> <<R(fn.bound[k][1]), fn.bound[k][2]>>],
+                              !.ms.ins   = [k \in DOMAIN fn.ms.ins |-> [fn.ms.ins[k] EXCEPT !.name = R(fn.ms.ins[k].name)]]])
+How(kind, fn, old, new) == [kind |-> kind, f |-> fn.name, old |-> old, new |-> new]
+PostMutations(b) ==
+    LET dd == b.desc IN
+    (* an output renamed onto another function's output (duplicate) or onto one of the function's own parameters *)
+    {[op |-> "post_rename_output", desc |-> RenameOut(dd, j, n), how |-> How("rename", dd.funcs[j], dd.funcs[j].outputs[1], n)] :
+        <<j, n>> \in {jn \in FIdx(dd) \X (AllOutputs(dd) \cup AllParams(dd)) :
+                         jn[2] \notin OutputsOf(dd, jn[1]) /\ (jn[2] \in AllOutputs(dd) \/ jn[2] \in ParamsOf(dd, jn[1]))}}
+    \cup
+    (* a parameter renamed onto an existing output: the function's own (output = parameter), a downstream one (cycle), or  *)
+    (* any other (a legal re-wiring: stays valid)                                                                          *)
+    {[op |-> "post_rename_param", desc |-> RenameParam(dd, i, p, n), how |-> How("rename", dd.funcs[i], p, n)] :
+        <<i, p, n>> \in {ipn \in FIdx(dd) \X AllParams(dd) \X AllOutputs(dd) :
+                            ipn[2] \in ParamsOf(dd, ipn[1]) /\ ipn[3] \notin ParamsOf(dd, ipn[1])}}
+    \cup
+    (* a default that contradicts the one another function declares for the same root argument *)
+    {[op |-> "post_update_defaults", desc |-> m.desc, how |-> m.how] :
+        m \in {[desc |-> SetDefault(dd, ip[1], ip[2]), how |-> How("defaults", dd.funcs[ip[1]], ip[2], "")] :
+                  ip \in {x \in FIdx(dd) \X RootArgs(dd) : x[2] \in ParamsOf(dd, x[1]) /\ ~IsBound(dd, x[1], x[2])
+                                                          /\ ~(HasMapInputs(dd.funcs[x[1]]) /\ x[2] \in InSpecNames(dd.funcs[x[1]]))}}}
+NoMapSpecs(dd) == \A i \in FIdx(dd) : ~dd.funcs[i].has_ms
+LastOut(dd)    == dd.funcs[NF(dd)].outputs[1]
+(* the root arguments that the functions needed for output o read *)
+ReadRoots(dd, o) == {p \in RootArgs(dd) : \E i \in Needed(dd, <<>>, o) : p \in ParamsOf(dd, i) /\ ~IsBound(dd, i, p)}
+CallKw(names) == LET s == SetToSeq(names) IN [k \in 1..Len(s) |-> <<s[k], P!KV(s[k])>>]
+(* the inputs of the base that are still root arguments of the changed pipeline *)
+StillRoots(dd, inputs) == SelectSeq(inputs, LAMBDA pr : pr[1] \in RootArgs(dd))
+PostMutants(b) ==
+    {[op |-> m.op, req |-> MapReq([desc |-> m.desc, inputs |-> StillRoots(m.desc, b.inputs)], Cfg("file_array", cl, TRUE), b),
+      how |-> m.how] : m \in PostMutations(b), cl \in BOOLEAN}
+    \cup (IF NoMapSpecs(b.desc)
+          THEN {[op |-> m.op, how |-> m.how,
+                 req |-> [desc |-> m.desc, inputs |-> CallKw(ReadRoots(m.desc, LastOut(m.desc))),
+                          cfg |-> Cfg("file_array", TRUE, FALSE), prev |-> b, entry |-> "call", out |-> LastOut(m.desc)]] :
+                    m \in PostMutations(b)}
+          ELSE {})
+
+(* --- the call side: pipeline(out, **kw) on the C02 descriptions; the valid base call passes every root argument that a  *)
+(* needed function reads; one keyword is dropped (missing unless it has a default) or one is added (a name that no        *)
+(* needed function takes: surplus; an intermediate on the path: a valid cut, stays valid)                                 *)
+CallReq(dd, kw, o, b) == [desc |-> dd, inputs |-> kw, cfg |-> Cfg("file_array", TRUE, FALSE), prev |-> b, entry |-> "call", out |-> o]
+CallMutants(b) ==
+    IF ~NoMapSpecs(b.desc) THEN {}
+    ELSE UNION {LET kw == CallKw(ReadRoots(b.desc, o))  cb == [desc |-> b.desc, inputs |-> kw] IN
+                {[op |-> "call_dropped_kw", req |-> CallReq(b.desc, SelectSeq(kw, LAMBDA pr : pr[1] # p), o, cb), how |-> NoHow] :
+                     p \in PKeys(kw)}
+                \cup {[op |-> "call_added_kw", req |-> CallReq(b.desc, Append(kw, <<n, Atom("@extra")>>), o, cb), how |-> NoHow] :
+                     n \in ({"q_extra"} \cup AllParams(b.desc) \cup AllOutputs(b.desc)) \ (PKeys(kw) \cup {o})}
+                : o \in AllOutputs(b.desc)}
+
+AllOps == Ops \cup {"unknown_storage_in_dict", "post_rename_output", "post_rename_param", "post_update_defaults",
+                    "call_dropped_kw", "call_added_kw"}
 (* the clauses a mutation operator can break (law) *)
 OpClauses(op) == CASE op = "rename_collision"  -> {"UniqueOutputs", "OutputNotOwnParam", "Acyclic"}
                    [] op = "added_edge"        -> {"OutputNotOwnParam", "Acyclic"}
@@ -130,9 +213,14 @@ OpClauses(op) == CASE op = "rename_collision"  -> {"UniqueOutputs", "OutputNotOw
                    [] op = "mapspec_signature" -> {"MapSpecMatchesSignature"}
                    [] op = "unknown_storage"   -> {"KnownStorage"}
                    [] op = "executor_without_parallel" -> {"ExecutorNeedsParallel"}
+                   [] op = "unknown_storage_in_dict"   -> {"KnownStorage"}
+                   [] op = "post_rename_output"   -> {"UniqueOutputs", "OutputNotOwnParam", "Acyclic", "CompleteInputs"}
+                   [] op = "post_rename_param"    -> {"OutputNotOwnParam", "Acyclic", "CompleteInputs"}
+                   [] op = "post_update_defaults" -> {"ConsistentDefaults"}
+                   [] op = "call_dropped_kw"      -> {"CompleteInputs"}
+                   [] op = "call_added_kw"        -> {"NoSurplusInputs"}
 
-Mutants == UNION {UNION {{[op |-> op, req |-> [desc |-> m.desc, inputs |-> m.inputs, cfg |-> c, prev |-> b]] :
-                              m \in Apply(op, b), c \in CfgsFor(op)} : op \in Ops} : b \in Bases}
+Mutants == UNION {BasicMutants(b) \cup StorageDictMutants(b) \cup PostMutants(b) \cup CallMutants(b) : b \in Bases}
 
 ---------------------------------------------------------------------------
 (* universe part: one behaviour of the Prepare machine per mutant *)
@@ -141,15 +229,17 @@ MNext == PrepareNext /\ l' = l + 1 /\ UNCHANGED <<mut, tid>>          \* l count
 MSpec == MInit /\ [][MNext]_allvars
 
 AtSecond  == l = 1                                   \* the laws are evaluated once per mutant, by the worker threads
-BaseReq   == [desc |-> mut.req.prev.desc, inputs |-> mut.req.prev.inputs, cfg |-> Cfg("file_array", mut.req.cfg.cleanup, TRUE),
-              prev |-> mut.req.prev]
+BaseReq   == IF mut.op \in {"call_dropped_kw", "call_added_kw"}
+             THEN CallReq(mut.req.prev.desc, mut.req.prev.inputs, mut.req.out, mut.req.prev)
+             ELSE MapReq(mut.req.prev, Cfg("file_array", mut.req.cfg.cleanup, TRUE), mut.req.prev)
 LawBaseValid      == Valid(BaseReq)                                        \* mutation starts from valid requests
 LawConj(v)        == (v = "none") <=> ValidConj(mut.req)                   \* Valid is the conjunction of the clauses
 LawOpClause(v)    == v \in OpClauses(mut.op) \cup {"none"}                 \* an operator breaks only its own clauses
 LawMapDenote      == LawAgreesWithMapDenote(mut.req)                       \* the shape clauses are C01's ValidMapRequest
 Laws == AtSecond => LET v == FirstViolated(mut.req) IN LawBaseValid /\ LawConj(v) /\ LawOpClause(v) /\ LawMapDenote
 InvRejectIsPure       == RejectIsPure
-StorageMutantsOnly    == mut.op = "unknown_storage"      \* CONSTRAINT of the runs that look for the ordering defect
+StorageMutantsOnly    == mut.op \in {"unknown_storage", "unknown_storage_in_dict"}   \* CONSTRAINTs of the runs that look for
+CallMutantsOnly       == mut.op \in {"call_dropped_kw", "call_added_kw"}            \* the implementation-shaped orderings
 InvNoCodeBeforeAccept == NoCodeBeforeAccept
 InvOnlyReject         == OnlyReject
 InvValidAccepted      == ValidAccepted
@@ -161,7 +251,7 @@ Stage(v) == IF v \in ConstructionClauses THEN "construct" ELSE IF v = "none" THE
 Emit == ~AtSecond \/
         LET v == FirstViolated(mut.req) IN
         IF v = "none" THEN PrintT(<<"STAYED_VALID", ToJson([op |-> mut.op])>>)
-        ELSE PrintT(<<"CASE", ToJson([op |-> mut.op, req |-> mut.req, violated |-> v, stage |-> Stage(v)])>>)
+        ELSE PrintT(<<"CASE", ToJson([op |-> mut.op, req |-> mut.req, how |-> mut.how, violated |-> v, stage |-> Stage(v)])>>)
 
 ---------------------------------------------------------------------------
 (* trace part: {desc, inputs, cfg, prev, ev: [{e: "outcome", outcome: "rejected"|"returned", calls: Nat, folder_changed: BOOLEAN}]} *)
@@ -170,7 +260,7 @@ NT == Len(Traces)
 ASSUME \A i \in 1..NT : TLCSet(i, 0)
 T  == Traces[tid]
 Ev == T.ev[l]
-ReqOf(t) == [desc |-> t.desc, inputs |-> t.inputs, cfg |-> t.cfg, prev |-> t.prev]
+ReqOf(t) == [desc |-> t.desc, inputs |-> t.inputs, cfg |-> t.cfg, prev |-> t.prev, entry |-> t.entry, out |-> t.out]
 Init == tid \in 1..NT /\ l = 1 /\ mut = 0 /\ PrepareInit(ReqOf(T))
 (* the unlogged steps of the machine *)
 TStep == PrepareNext /\ UNCHANGED <<mut, tid, l>>
